@@ -22,7 +22,9 @@ def run(F, rep, tier):
     rep.floor("panic-capable sites inventoried", rep.counts.get("P.sites", 0), 80)
     safety.stack_rule(F, G, rep, R)
     n_loops = safety.loops_rule(F, G, rep, R, M)
-    rep.floor("loops in the reader's reachable set", n_loops, 7)
+    # (7 on the pinned tree; a `for` rewritten with iterator adaptors is no longer a loop of ours — std's adaptors over finite
+    # collections terminate —, so the vacuity floor is set well below the count)
+    rep.floor("loops in the reader's reachable set", n_loops, 3)
     n_res = safety.error_discipline(F, G, rep, R)
     rep.floor("io::Result-returning call sites", n_res, 100)
     ext = safety.blocking_rule(F, G, rep, R)
